@@ -187,6 +187,17 @@ def gen(rng, tier):
                 if len(bad) == 1:
                     bad = [ts[0], bad[0]] if rng.random() < 0.5 else [bad[0], ts[0]]
                 case(out, "difftaxa", bad, rng.choice(CUTOFFS))
+    # every kind of taxon-multiset difference (new / missing / duplicated with the same or a bigger count / extra /
+    # empty / case variant), at the first, second and last position, the offending tree rooted or not
+    for _ in range({"quick": 14, "thorough": 150, "search": 30}[tier]):
+        n = rng.randint(2, 6)
+        ts = collection(rng, g, n, rng.randint(4, 8), rng.choice([0, 0.5]))
+        for kind_v, bad in _c08.taxa_variants(rng.choice([t for t in ts if len(t["slots"]) != 2] or [ts[0]]), rng, g):
+            if len(bad["slots"]) != 2 and rng.random() < 0.5:
+                bad = root_on_branch(bad, rng, g)
+            pos = rng.choice([0, 1, len(ts) - 1])
+            col = list(ts); col[pos] = bad
+            case(out, "difftaxa-" + kind_v, col, rng.choice(CUTOFFS))
     # frequencies exactly on the threshold
     exact = [(2, 1), (4, 2), (4, 3), (5, 3), (6, 3), (6, 4), (8, 4), (8, 6), (5, 4), (3, 2)]
     for (n, c) in exact:
